@@ -24,6 +24,14 @@ PRP = dict(PR); PRP.update({'SZ_rootq': 'sizeof(struct dispatch_queue_global_s)'
 HARNESSES.append(H('S_root_queue_poke', 'h_pool.c', ['_dispatch_root_queue_poke', '_dispatch_root_queues', '_dispatch_pthread_root_queue_contexts', '__dispatch_tsd'], stubs=['_dispatch_bug', 'libdispatch_tsd_init', '_dispatch_temporary_resource_shortage', 'pthread_create', 'dispatch_semaphore_signal', 'dispatch_once_f'],
     noglobal=['_dispatch_queue_attrs', '_dispatch_mgr_q'], icall_only=['_dispatch_object_no_invoke'], nt=1, heap=512, unwind=6, probes=PRP, timeout=300,
     note='real _dispatch_root_queue_poke(_slow) on the default global queue: pool size 0..8, request 1..3, floor 0..2, 0..2 parked workers: pending == threads created, pool accounting, growth when capacity remains'))
+# ---------------------------------------------------------------- tier Q: real interleavings of small kernels (sequentialised threads)
+def Q(name, file, units, note, defines=(), stubs=(), blocking=(), **kw):
+    kw.setdefault('timeout', 1200); kw.setdefault('unwind', 4)
+    return H(name, file, units, stubs=['_dispatch_bug', 'libdispatch_tsd_init'] + list(stubs), blocking=list(blocking), seq=True, nt=4, heap=256, defines=list(defines), probes=PR, note=note, **kw)
+HARNESSES += [
+    Q('Q_mpsc_2', 'h_mpsc.c', ['_dispatch_queue_push_item', '_dispatch_queue_get_head', '_dispatch_queue_pop_head'], 'REAL interleavings: 2 producers (real _dispatch_queue_push_item) x 1 drainer (real _dispatch_queue_get_head/_pop_head), context switch before every atomic access, 3 rounds x 3 threads x <=12 steps',
+      defines=['-DNITEMS=2'], stubs=['_dispatch_wait_for_enqueuer'], blocking=['_dispatch_wait_for_enqueuer']),
+]
 ASSUMPTIONS = ['thread pool lemma: pthread_create and the mediator semaphore are counting stubs; the workqueue monitor (_dispatch_workq_monitor_pools, /proc parsing) is not covered',
   'tier S: one call of one real state-machine function from an arbitrary 64-bit state word (restricted only by the caller contract: what the calling owner holds) and arbitrary width in [1,4094]; at most 2 interfering replacements of the word by other threads',
                'kevent-workloop role (BASE_WLH) excluded: not compiled on this platform',
